@@ -64,22 +64,22 @@ Inductive apply_op : operator -> list value -> ctx -> log -> outcome value -> ct
     apply_op OAssign [VString x; v] c lg (stopped s) c lg
 (* x op= v : x is read from c -- the context AFTER all children, in particular after the right-hand
    side, were evaluated --, the plain operator is applied, the result is stored *)
-| ap_opassign_ok o b x v c lg left res c' :
+| ap_opassign_ok o b x v c lg old res c' :
     assign_base o = Some b ->
-    get_value c x = Some left ->
-    fst (op_eval O b [left; v] c lg) = Ok res ->
+    get_value c x = Some old ->
+    fst (op_eval O b [old; v] c lg) = Ok res ->
     set_value c x res = Ok c' ->
     apply_op o [VString x; v] c lg (Ok VEmpty) c' lg
-| ap_opassign_store_fail o b x v c lg left res s :
+| ap_opassign_store_fail o b x v c lg old res s :
     assign_base o = Some b ->
-    get_value c x = Some left ->
-    fst (op_eval O b [left; v] c lg) = Ok res ->
+    get_value c x = Some old ->
+    fst (op_eval O b [old; v] c lg) = Ok res ->
     set_value c x res = stopped s ->
     apply_op o [VString x; v] c lg (stopped s) c lg
-| ap_opassign_op_fail o b x v c lg left s :
+| ap_opassign_op_fail o b x v c lg old s :
     assign_base o = Some b ->
-    get_value c x = Some left ->
-    fst (op_eval O b [left; v] c lg) = stopped s ->
+    get_value c x = Some old ->
+    fst (op_eval O b [old; v] c lg) = stopped s ->
     apply_op o [VString x; v] c lg (stopped s) c lg
 | ap_opassign_unbound o b x v c lg :
     assign_base o = Some b ->
